@@ -575,6 +575,19 @@ func (bus *EventBus) Wait() {
 
 // callHandlerWithContext calls a handler with proper type checking and panic recovery
 func callHandlerWithContext[T any](h *internalHandler, ctx context.Context, event T, panicHandler PanicHandler, obs Observability, eventTypeName string, async bool) {
+	// Sequential handlers need locking. The wait for the lock can be long: if the
+	// publish was cancelled meanwhile the handler must not be started any more
+	if h.sequential {
+		verifYield("handler.lock", h, 0)
+		h.mu.Lock()
+		defer h.mu.Unlock()
+		select {
+		case <-ctx.Done():
+			return
+		default:
+		}
+	}
+
 	start := time.Now()
 	var panicErr error
 
@@ -595,13 +608,6 @@ func callHandlerWithContext[T any](h *internalHandler, ctx context.Context, even
 	// Observability: Track handler start
 	if obs != nil {
 		ctx = obs.OnHandlerStart(ctx, eventTypeName, async)
-	}
-
-	// Sequential handlers need locking
-	if h.sequential {
-		verifYield("handler.lock", h, 0)
-		h.mu.Lock()
-		defer h.mu.Unlock()
 	}
 
 	// Try common handler types first for performance
